@@ -1177,6 +1177,16 @@ class Executor:
             elif term.startswith("switchInt("):
                 m = re.match(r"switchInt\((.*)\) -> \[(.*)\];$", term)
                 v = self.operand(env, m.group(1))
+                # the rvalue that defines the switch operand in this block (locals anonymised): names the branch
+                # independently of block numbering
+                cond_src = None
+                mo = re.match(r"(?:move|copy) _(\d+)$", m.group(1).strip())
+                if mo:
+                    for st_ in reversed(stmts):
+                        md = re.match(r"_%s = (.*);$" % mo.group(1), st_)
+                        if md:
+                            cond_src = re.sub(r"_\d+", "_", md.group(1))
+                            break
                 taken = []
                 for t in split_top(m.group(2)):
                     mm = re.match(r"(-?\d+|otherwise): bb(\d+)$", t)
@@ -1205,7 +1215,7 @@ class Executor:
                         taken.append((x, tgt))
                     out_edges.append((tgt, c))
                     self.enc.edges.append({"name": "bb%d%s->bb%d[%s]" % (bb, (".%d" % k) if k else "", tgt, mm.group(1)),
-                                           "src": bb, "k": k, "dst": tgt, "label": mm.group(1), "_c": c, "_pc": pc,
+                                           "src": bb, "k": k, "dst": tgt, "label": mm.group(1), "_c": c, "_pc": pc, "cond_src": cond_src,
                                            "dead_target": body.blocks[tgt][1] == "unreachable;"})
             elif term.startswith("assert("):
                 m = re.match(r"assert\((!?)(.*?), (\".*?\")(?:, .*)?\) -> \[success: bb(\d+), unwind[^\]]*\];$", term)
